@@ -7,9 +7,10 @@ import Driver.OpsSolve
 import Driver.OpsHistory
 import Driver.OpsTransfer
 import Driver.OpsSpectral
+import Driver.OpsCurv
 open LapyVerif.Driver
 
-def allOps : List (String × P String) := femOps ++ diffGeoOps ++ topoOps ++ meshOps ++ solveOps ++ heatOps ++ historyOps ++ ctorOps ++ transferOps ++ spectralOps
+def allOps : List (String × P String) := femOps ++ diffGeoOps ++ topoOps ++ meshOps ++ solveOps ++ heatOps ++ historyOps ++ ctorOps ++ transferOps ++ spectralOps ++ curvOps
 
 def handle (line : String) : String :=
   let toks := ((line.trimAscii.toString.splitOn " ").filter (· ≠ "")).toArray
